@@ -301,3 +301,55 @@ Proof.
   - right. left. lia.
   - right. right. left. lia.
 Qed.
+
+(* ---- cached lock points ---- *)
+Lemma block_id_at_cons b c h : 0 <= h <= height c -> block_id_at (b :: c) h = block_id_at c h.
+Proof.
+  intros Hh. unfold block_id_at. destruct (Z.ltb_spec h 0); [lia|]. simpl. rewrite nth_error_app1; [reflexivity|].
+  rewrite rev_length, map_length. unfold height in Hh. lia.
+Qed.
+Lemma block_id_at_range c h x : block_id_at c h = Some x -> 0 <= h <= height c.
+Proof.
+  unfold block_id_at. destruct (Z.ltb_spec h 0); [discriminate|]. intros E.
+  assert (nth_error (rev (map b_id c)) (Z.to_nat h) <> None) as X by congruence.
+  apply nth_error_Some in X. rewrite rev_length, map_length in X. unfold height. lia.
+Qed.
+Lemma lock_points_valid_cons b c lp : lock_points_valid c lp = true -> lock_points_valid (b :: c) lp = true.
+Proof.
+  unfold lock_points_valid. destruct (block_id_at c (lp_maxh lp)) eqn:E; [|discriminate].
+  rewrite (block_id_at_cons b c _ (block_id_at_range _ _ _ E)), E. auto.
+Qed.
+
+Lemma last_times_app l l' h : (h < length l)%nat -> last_times (l ++ l') h = last_times l h.
+Proof.
+  intros Hh. unfold last_times. set (n := Nat.min 11 (h + 1)). set (k := (h + 1 - n)%nat).
+  assert (k + n <= length l)%nat as L by (unfold k, n; lia).
+  rewrite skipn_app. replace (k - length l)%nat with 0%nat by lia. simpl skipn at 2.
+  rewrite firstn_app. rewrite skipn_length. replace (n - (length l - k))%nat with 0%nat by lia. simpl. apply app_nil_r.
+Qed.
+Lemma mtp_at_app l l' h : 0 <= h < Z.of_nat (length l) -> mtp_at (l ++ l') h = mtp_at l h.
+Proof.
+  intros Hh. destruct (mtp_at_some l h Hh) as (m & E). rewrite E. apply mtp_at_iff. apply mtp_at_iff in E. destruct E as [_ E].
+  split; [rewrite app_length; lia|]. rewrite last_times_app by lia. exact E.
+Qed.
+
+(* EvaluateSequenceLocks for the block after the tip: the lock height is below height + 1 and the lock time below the
+   median time past of the tip *)
+Lemma check_seq_locks_iff c lp : c <> [] ->
+  (check_seq_locks c lp = true <-> lp_height lp < height c + 1 /\ lp_time lp < mtp_tip c).
+Proof.
+  intros Hc. unfold check_seq_locks, evaluate_sequence_locks.
+  assert (block_height (times c ++ [0]) = height c + 1) as EH.
+  { unfold block_height, height. rewrite app_length, times_length. simpl. lia. }
+  rewrite EH. assert (0 <= height c) as Hh by (unfold height; destruct c; [tauto|simpl length; lia]).
+  destruct (Z.ltb_spec (height c + 1) 1); [lia|].
+  replace (height c + 1 - 1) with (height c) by lia.
+  rewrite mtp_at_app by (rewrite times_length; unfold height in *; lia). rewrite (mtp_tip_some c Hc).
+  rewrite negb_true_iff, orb_false_iff. split; [intros [A B]|intros [A B]]; lia.
+Qed.
+Lemma check_seq_locks_cons b c lp : c <> [] -> mtp_tip c < b_time b ->
+  check_seq_locks c lp = true -> check_seq_locks (b :: c) lp = true.
+Proof.
+  intros Hc Ht H. apply (check_seq_locks_iff c lp Hc) in H. apply check_seq_locks_iff; [discriminate|].
+  rewrite height_cons. pose proof (mtp_tip_mono b c Hc Ht). lia.
+Qed.
